@@ -9,6 +9,11 @@
      self-fetch identity  fetch w [] = w  (C20_pop_restores_same only)               [C07-like]
      H_refetch fetch m [prune (fetch m [prune w; u]); u] = fetch m [prune w; u]
                (C20_update_twice only)                                               [C07-like]
+   Inv s := (dirty s = false -> forall p, params s = Some p -> extract (working s) = OOk p)   cache coherent
+         /\ pidx s = widx (index_of (working s))                 path index = re-indexing of the working tree
+         /\ Forall fetched (states s)                            stacked states are t.fetch() copies
+         /\ (forall p, params s = Some p -> pyok p)              the cached object is a round-trip object
+         /\ werr (index_of (working s)) = None                   re-indexing the working tree does not raise
    Histories are lists of operations of any length, run = fold_left step.  [run_ok] says that every
    operation is one of the property's (no reset_scope / erase_scope, python objects given to
    update_from_python are round-trip objects) and that no step raised after it had already changed
@@ -105,6 +110,18 @@ Theorem C20_lookup_live : forall py fetch extract format master pyok fx (s:state
   exists pre, locate [] (working s) q = Some (o, pre) /\ join_path pre (oname (ohdr o)) = path.
 Proof. exact lookup_live. Qed.
 Print Assumptions C20_lookup_live.
+
+(* conversely every object the indexer reaches (no hidden template, is_template < 0, on the way) is found
+   under its full path; if no other position of the working tree has that full path (paths outside
+   multiple scopes of a fetched tree), the look-up returns exactly that object *)
+Theorem C20_lookup_complete : forall py fetch extract format master pyok fx (s:state py) q o pre,
+  Inv py fetch extract pyok s -> visible (working s) q = true -> locate [] (working s) q = Some (o, pre) ->
+  (forall q' o' pre', locate [] (working s) q' = Some (o', pre') ->
+     join_path pre' (oname (ohdr o')) = join_path pre (oname (ohdr o)) -> q' = q) ->
+  exists e, snd (step py fetch extract format master fx s (GetScopeByName (join_path pre (oname (ohdr o))))) = OEntry (Some e)
+            /\ forall q' o', In (q', o') (objs_of e) -> q' = q /\ o' = o.
+Proof. exact lookup_complete. Qed.
+Print Assumptions C20_lookup_complete.
 
 (* ---------- non-vacuity *)
 (* the hypotheses on the library are satisfiable (a small flat library) *)
